@@ -32,6 +32,10 @@ ASSUMPTIONS = [
 CACHE_FILE = os.path.realpath(cacheutils.__file__)
 
 
+MAX_STEPS = 40000
+_RUNAWAY = [False]
+
+
 class SchedulerError(Exception):
     pass
 
@@ -76,6 +80,13 @@ class Scheduler:
     def tick(self):
         """called before every bytecode instruction executed inside cacheutils.py by the thread holding the turn"""
         self.step += 1
+        if self.step > MAX_STEPS:
+            # a normal execution needs a few hundred steps: this is an endless loop over a corrupted structure
+            self.abort = True
+            self.error = self.error or 'more than %d bytecode steps inside cacheutils.py (endless loop over a corrupted structure)' % MAX_STEPS
+            with self.cv:
+                self.cv.notify_all()
+            raise SchedulerError(self.error)
         self.owners.append(self.local.idx)
         target = self.plan.get(self.step)
         if target is None:
@@ -154,6 +165,27 @@ def make_tracer(sched):
 
 
 CACHE_FILE_RAW = [cacheutils.LRI.__setitem__.__code__.co_filename]
+_PRIMED = [False]
+
+
+def prime_opcode_tracing():
+    """CPython 3.12 only turns per-instruction events on at a sys.settrace() call made *after* some frame has asked for
+    f_trace_opcodes; do that once per process so that the very first traced thread is already traced per opcode."""
+    if _PRIMED[0]:
+        return
+
+    def _t(frame, event, arg):
+        frame.f_trace_opcodes = True
+        return None
+
+    def _dummy():
+        return 1
+    old = sys.gettrace()
+    sys.settrace(_t)
+    _dummy()
+    sys.settrace(old)
+    _PRIMED[0] = True
+
 
 # ---------------------------------------------------------------------------
 # programs
@@ -351,6 +383,7 @@ def linearizable(case, results, final_items, final_order):
 
 def execute(case, plan):
     """run the programs under the given pre-emption plan.  Returns dict or raises SchedulerError text in result."""
+    prime_opcode_tracing()
     cls = {'LRI': LRI, 'LRU': LRU}[case['cls']]
     progs = case['programs']
     sched = Scheduler(len(progs), plan)
@@ -403,6 +436,8 @@ def execute(case, plan):
         for th in threads:
             th.join(2)
     CoopRLock.sched = None
+    if any(th.is_alive() for th in threads):
+        _RUNAWAY[0] = True      # a thread of this run is still alive: this process must not run further schedules
     return {'cache': c, 'results': results, 'steps': sched.step, 'switches': sched.switches, 'lock_yields': sched.lock_yields,
             'owners': sched.owners,
             'error': sched.error or ('threads did not finish within 30 s' if hung else None)}
@@ -413,7 +448,7 @@ def check_run(case, plan, out):
     where = '%s(max_size=%d, on_miss=%s) initial %r, thread programs %r, pre-emptions (opcode index -> thread) %r' % (
         case['cls'], case['max_size'], case['on_miss'], [(K(k), v) for k, v in case['init']], case['programs'], sorted(plan.items()))
     if r['error']:
-        out.fail('c03.deadlock', '%s: %s' % (where, r['error']))
+        out.fail('hang' if _RUNAWAY[0] else 'c03.deadlock', '%s: %s' % (where, r['error']))
         return None
     c = r['cache']
     results = r['results']
@@ -456,12 +491,17 @@ def check_run(case, plan, out):
 
 def run(case):
     out = Outcome()
+    if _RUNAWAY[0]:
+        return out.fail('hang', 'a thread of an earlier schedule never finished in this process; no further schedules are run here')
     progs = case['programs']
     nthreads = len(progs)
     base = check_run(case, {}, out)
     if base is None:
         return out
     steps = base['steps']
+    if steps == 0 and any(op[0] in ('set', 'getitem', 'get', 'del', 'pop', 'setdefault', 'update', 'clear', 'copy', 'popitem')
+                          for p in progs for op in p):
+        raise HarnessError('no per-opcode trace events although the programs run Python-level cache methods')
     if steps == 0:
         # only C-level operations (len, in): nothing to pre-empt inside cacheutils
         out.units = 1
